@@ -5,6 +5,7 @@ import (
 	"fmt"
 	"os"
 	"path/filepath"
+	"strconv"
 	"strings"
 	"time"
 
@@ -69,7 +70,7 @@ func replayCase(path, modelPath, work string) int {
 		return 0
 	}
 	status := 0
-	if strings.HasPrefix(op, "dec ") || strings.HasPrefix(op, "decs ") || strings.HasPrefix(op, "enc ") || strings.HasPrefix(op, "marshalto ") && !strings.Contains(op, " r") {
+	if strings.HasPrefix(op, "dec ") || strings.HasPrefix(op, "decs ") || strings.HasPrefix(op, "enc ") || modelMarshalTo(op) {
 		// a model operation was recorded; show the model's answer
 	} else {
 		d, err := session.OpenDriver(p, env, 20*time.Second)
@@ -101,4 +102,14 @@ func replayCase(path, modelPath, work string) int {
 		}
 	}
 	return status
+}
+
+// modelMarshalTo: the model's operation is `marshalto <hex> <value>`, the driver's `marshalto <def> <fill> <extra> <value>`.
+func modelMarshalTo(op string) bool {
+	t := strings.Fields(op)
+	if len(t) < 3 || t[0] != "marshalto" {
+		return false
+	}
+	_, err := strconv.Atoi(t[2])
+	return err != nil
 }
